@@ -210,7 +210,24 @@ def check_helper(case, ctx):
         kw['add_knot_list'] = list(extra)
         knot_list = sorted(set(base + extra))
     ctx.tag('helper:' + mode, 'density%d' % density)
-    if mode == 'knot_list' and rng.random() < 0.3:
+    import math as _m
+    midpoint_case = False
+    inner_ = sorted(set(k for k in U[p + 1:n] if a < k < b))
+    if mode == 'add_knot_list' and inner_ and rng.random() < 0.3:
+        # the caller's own arithmetic for an existing knot (0.1 + 0.2 for the knot 0.3): one ulp beside it - it IS that knot
+        k_ = rng.choice(inner_)
+        kw['add_knot_list'] = list(kw['add_knot_list']) + [_m.nextafter(k_, rng.choice([-_m.inf, _m.inf]))]
+        ctx.tag('helper:knot-value-one-ulp-off')
+    elif mode == 'knot_list' and len(inner_) >= 3 and rng.random() < 0.25:
+        # an explicit list of two existing knots whose midpoint is (up to rounding) a third existing knot that is not listed
+        i_ = rng.randrange(len(inner_) - 2)
+        lo_, mid_, hi_ = inner_[i_], inner_[i_ + 1], inner_[i_ + 2]
+        if abs((lo_ + (hi_ - lo_) / 2.0) - mid_) <= 4 * _m.ulp(mid_) and density == 1:
+            kw['knot_list'] = [lo_, hi_]
+            knot_list = [lo_, hi_]
+            midpoint_case = True
+            ctx.tag('helper:midpoint-on-existing-knot')
+    if mode == 'knot_list' and rng.random() < 0.3 and not midpoint_case:
         # an explicit list naming ONE knot (possibly twice): that knot is raised to multiplicity p, nothing is bisected
         v = rng.choice(kw['knot_list'])
         kw['knot_list'] = [v] * rng.randint(1, 2)
@@ -236,6 +253,10 @@ def check_helper(case, ctx):
                 sum(1 for k in U0 if k == kw['knot_list'][0]) >= p:
             ctx.ok('helper')
             return
+        exp_ = expected_knots(p, U0, density, knot_list)
+        if all(sum(1 for k in U0 if abs(F(k) - z) <= F(1e-9) * F(b - a)) >= p for z in exp_ if F(a) < z < F(b)):
+            ctx.ok('helper')       # every knot the refinement asks for is there already, p times
+            return
         raise
     # the caller's arguments still describe what they described before the call (the original shape and the requested knots)
     ctx.check(P == P0 and list(U) == U0, 'helper/input-modified', 'knot_refinement(%s, density=%d, %s layout) modified the control points / knot '
@@ -247,6 +268,12 @@ def check_helper(case, ctx):
     ctx.check(err is None and len(newP) == len(newU) - p - 1, 'helper/structure', 'knot_refinement(%s, density=%d): %s'
               % (mode, density, err or 'len(ctrlpts) %d != len(kv)-p-1 = %d' % (len(newP), len(newU) - p - 1)), what='helper',
               kv=U0, new_kv=list(newU), knot_list=knot_list)
+    # a refined knot is ONE value: no pair of distinct knots a rounding error apart that the input did not have
+    dpost = sorted(set(newU))
+    near = [(x, y) for x, y in zip(dpost, dpost[1:]) if y - x <= 1e-9 * (b - a) and not (x in U0 and y in U0)]
+    ctx.check(not near, 'helper/near-duplicate-knots', 'knot_refinement(%s, density=%d) returns the distinct knot values %r: one knot of the '
+              'refined vector is split over two floats a rounding error apart (a knot interval of that length, multiplicities counted per '
+              'value are wrong)' % (mode, density, near[:2]), what='helper', kv=U0, new_kv=list(newU))
     from .c04 import flat
     A = [flat(pt) for pt in P0]
     B = [flat(pt) for pt in newP]
